@@ -27,7 +27,11 @@ theorem C14_setUp_WF (t : Template) (p : Params) (c : Cfg) (h : setUp t p = some
   · next inc hinc =>
     simp only [Option.some.injEq] at h
     subst h
-    constructor <;> simp only <;> split <;> omega
+    by_cases hms : p.maxSegToProcess = -1
+    · simp only [hms, if_true]
+      constructor <;> simp only <;> (try split) <;> omega
+    · simp only [hms, if_false]
+      constructor <;> simp only <;> (try split) <;> omega
 
 /-- **"the result does not depend on how many segments or TOF bins are held in memory at once"**, core:
     every frame's histogram written by the multi-pass run (batches of `num_segments_in_memory` segments ×
@@ -43,13 +47,15 @@ theorem C14_process_eq_single_pass (c : Cfg) (h : c.WF) (hmode : c.doTimeFrame =
 theorem onePass_congr (c c' : Cfg) (h1 : c'.tpl = c.tpl) (h2 : c'.doTimeFrame = c.doTimeFrame)
     (h3 : c'.storePrompts = c.storePrompts) (h4 : c'.delayedIncrement = c.delayedIncrement) (e : Int)
     (recs : List Record) : ∀ more cur, onePass c' e more cur recs = onePass c e more cur recs := by
+  have hinc : ∀ ev, eventIncrement c' ev = eventIncrement c ev := by
+    intro ev; simp [eventIncrement, h3, h4]
   induction recs with
   | nil => intro _ _; rfl
   | cons r rs ih =>
     intro more cur
     cases r with
     | time t => rw [onePass, onePass]; simp only [h2, ih]
-    | event ev => rw [onePass, onePass]; simp only [h1, h2, eventIncrement, h3, h4, ih]
+    | event ev => rw [onePass, onePass]; simp only [h1, h2, hinc, ih]
 
 theorem onePassFrames_congr (c c' : Cfg) (h1 : c'.tpl = c.tpl) (h2 : c'.doTimeFrame = c.doTimeFrame)
     (h3 : c'.storePrompts = c.storePrompts) (h4 : c'.delayedIncrement = c.delayedIncrement)
@@ -69,9 +75,12 @@ theorem C14_batch_size_independent (c : Cfg) (n m n' m' : Int) (hn : 1 ≤ n) (h
     (hmode : c.doTimeFrame = true ∨ c.frames.length ≤ 1) (recs : List Record) (b : Bin) :
     (processData { c with segsInMemory := n, tofInMemory := m } recs).1.map (fun a => value a b)
       = (processData { c with segsInMemory := n', tofInMemory := m' } recs).1.map (fun a => value a b) := by
-  rw [process_eq_singlePass _ hn hm hseg htof hmode, process_eq_singlePass _ hn' hm' hseg htof hmode]
+  have h1 := process_eq_singlePass { c with segsInMemory := n, tofInMemory := m } hn hm hseg htof hmode recs b
+  have h2 := process_eq_singlePass { c with segsInMemory := n', tofInMemory := m' } hn' hm' hseg htof hmode recs b
+  rw [h1, h2]
   simp only [singlePass]
-  rw [onePassFrames_congr c _ rfl rfl rfl rfl rfl, onePassFrames_congr c { c with segsInMemory := n', tofInMemory := m' } rfl rfl rfl rfl rfl]
+  rw [onePassFrames_congr c { c with segsInMemory := n, tofInMemory := m } rfl rfl rfl rfl rfl,
+    onePassFrames_congr c { c with segsInMemory := n', tofInMemory := m' } rfl rfl rfl rfl rfl]
 
 /-- the hypotheses on frames and stream under which "the events inside a frame" means what the property says:
     time-frame mode, frames non-empty / ending after 0.01 s / in sequence (what `TimeFrameDefinitions` accepts),
@@ -109,7 +118,7 @@ theorem C14_delayed_subtracts (t : Template) (p : Params) (c : Cfg) (h : setUp t
     ¬(p.storePrompts = false ∧ p.storeDelayeds = false) := by
   unfold setUp at h
   simp only at h
-  cases hp : p.storePrompts <;> cases hd : p.storeDelayeds <;> simp [hp, hd] at h ⊢ <;> subst h <;> simp [hp]
+  cases hp : p.storePrompts <;> cases hd : p.storeDelayeds <;> simp [hp, hd] at h ⊢ <;> subst h <;> simp
 
 /-- so with both switches on a bin holds (#prompts − #delayeds) of the frame assigned to it -/
 theorem C14_trues (c : Cfg) (hp : c.storePrompts = true) (hd : c.delayedIncrement = -1) (recs : List Record) (s e : Int)
@@ -191,6 +200,7 @@ theorem C14_num_events_cutoff (c : Cfg) (h : c.WF) (hd : c.doTimeFrame = false) 
     | nil => rfl
     | cons r rs => exact skipTo_ge (by omega)
   rw [hsk]
+  simp only [Bool.false_eq_true, if_false]
   rw [(onePass_numEvents c hd e he recs c.numEventsToStore 0 0).1]
   rfl
 
@@ -240,7 +250,12 @@ example : Timely (exCfg 1 2) exRecs := ⟨rfl, ⟨by decide, by decide⟩, by de
 example : (processData (exCfg 1 2) exRecs).1.map (fun a => value a ⟨0, 2, 0, 0, -1⟩) = [0, 1, 0] := by decide
 example : (processData (exCfg 1 2) exRecs).1.map (fun a => value a ⟨1, 3, 0, 0, 0⟩) = [0, -1, 0] := by decide
 example : (processData (exCfg 2 3) exRecs).1.map (fun a => value a ⟨1, 5, 0, 0, 1⟩) = [0, 0, 1] := by decide
-example : IsPartitionFrom 0 [(0, 1000), (1000, 2000)] := by decide
+/-- hypotheses of `C14_frames_add`: a partition of `[0, 2000)` with the same stream -/
+example : IsPartitionFrom 0 [(0, 1000), (1000, 2000)] := ⟨rfl, by decide, rfl, by decide, trivial⟩
+example : Timely { exCfg 1 1 with frames := [(0, 1000), (1000, 2000)] } exRecs := ⟨rfl, ⟨by decide, by decide⟩, by decide⟩
+example : ((processData { exCfg 1 1 with frames := [(0, 1000), (1000, 2000)] } exRecs).1.map fun a => value a ⟨1, 1, 0, 0, 1⟩) = [0, 0]
+    ∧ ((processData { exCfg 1 1 with frames := [(0, 1000), (1000, 2000)] } exRecs).1.map fun a => value a ⟨0, 0, 0, 0, 0⟩) = [1, 0] := by
+  constructor <;> decide
 /-- `num_events_to_store` instance: stops after the second stored event -/
 example : cutPrefix { exCfg 1 1 with doTimeFrame := false, numEventsToStore := 2, frames := [(0, 0)], delayedIncrement := 0 } 2 exRecs
     = [exEv 0 0 0 true, .time 300, exEv 1 1 1 true] := by decide
